@@ -1,11 +1,11 @@
 package sx
 
 import (
-	"reflect"
 	"fmt"
-	"strconv"
 	"go/types"
 	"math/big"
+	"reflect"
+	"strconv"
 	"strings"
 
 	"gabiverif/smt"
